@@ -604,17 +604,16 @@ struct Sys {
 			}
 		} else {
 			view_root_remove = o.target && p.null;
-			for (auto it = val.begin(); it != val.end();) { if (is_prefix(K, it->first) && !(view_root_remove && it->first == K)) it = val.erase(it); else ++it; }
+			// removing the view's own (empty relative) path = removing the base path: its value and everything beneath go
+			for (auto it = val.begin(); it != val.end();) { if (is_prefix(K, it->first)) it = val.erase(it); else ++it; }
 			for (auto it = may.begin(); it != may.end();) { if (is_prefix(K, *it) && !(view_root_remove && *it == K)) it = may.erase(it); else ++it; }
 			out.count(ret < 0 ? "remove:returns-error" : "remove:returns-ok");
 		}
 		if (asan && !bad) fail(opsig + "|asan", desc + ": memory error inside the operation (AddressSanitizer)");
 		if (view_root_remove && !bad) {
-			// what "remove the view's own (empty) path" does to the value of the base entry is not specified: follow the implementation
-			std::string got; const PSpec &b = pool[P(job.base)];
-			int r = LIB(get_value(0, b, got));
-			if (r < 0) val.erase(K); else if (val.count(K) && val[K] == got) {} else if (!val.count(K)) { /* a value appearing from nowhere is caught by the sweep */ }
+			// whether the (now value-less) base entry itself survives is not specified
 			may.insert(K);
+			out.count("remove:view-own-path");
 		}
 		if (bad) return false;
 		if (job.probe && root) probe_copy(opsig, desc);
@@ -811,6 +810,7 @@ static void explore_store(Run &r, const Job &job)
 	r.require("nontrivial"); r.require("assign:overwrite"); r.require("query:hit-expected"); r.require("query:absence-expected");
 	r.require("assign:beneath-a-valued-path"); r.require("assign:above-valued-paths"); r.require("assign:value>=250 bytes");
 	r.require("copy:onto-itself"); r.require("copy:from-other-path"); r.require("unset:long-value"); r.require("unset:short-value");
+	r.require("remove:view-own-path");
 	r.require("remove:inner-with-keys-beneath"); r.require("remove:leaf"); r.require("remove:absent"); r.require("remove:everything");
 	g_phase = (char *) mmap(0, 4096, PROT_READ | PROT_WRITE, MAP_SHARED | MAP_ANONYMOUS, -1, 0);
 	explore_inproc(r, job);
